@@ -16,6 +16,7 @@ func init() {
 		},
 		NotDecided: []string{"floating-point results", "per-step alignment of the two sides beyond 'built with the same parameters'"},
 		Rules: func(r *Run) {
+			ruleOneStepPerNext(r)
 			ruleLiteralBinOpCtor(r)
 			ruleSampleBinOp(r)
 			ruleBinOpIterators(r)
